@@ -15,6 +15,7 @@ var vDirected bool
 func HarnessDrainQuiescent() {
 	vT2(vParam("preemptions", 1), vParam("firings", 10))
 	vWatchPauseEvents()
+	vWatchDrainState()
 	if !vDirected && vParam("policies", 2) == 2 {
 		// both default scheduling policies (earliest-started first / latest-started first) are explored
 		vSchedPolicy(vChoose("sched_policy", 2))
@@ -211,7 +212,9 @@ func HarnessDrainQuiescent() {
 			pastGate = drainBeginIdx >= 0 && vGateEnterBefore(gi) < drainBeginIdx && PauseWaitAction(vTrace[gi].status) == PauseWaitActionProceed
 		}
 		class := ""
-		drainEndIdx := vIndexOf("drain_end", -1)
+		// (the instant the target left the draining state, not the return of Drain: the latter is later by the
+		// notification of the load balancer)
+		drainEndIdx := vIndexOf("draining_cleared", -1)
 		if drainEndIdx >= 0 && i > drainEndIdx {
 			// only a request that reaches the target after its drain completed can belong to these classes: during the
 			// drain StartRequest refuses, and whatever it admitted before is waited for
